@@ -1017,3 +1017,255 @@ func ruleAliasGuard(p *Prog, r *Result) {
 		r.add(dom, fmt.Sprintf("(*SelectStmt).ValidateFields|check#%d", i+1), p.InstrPos(c), "checking a select field (which resolves names to aliases) is preceded on every path by the alias-cycle guard, whose error ends the validation")
 	}
 }
+
+// ---------------- RTPURE ----------------
+
+func init() {
+	register("RTPURE", "static types are recomputed, never remembered: no ReturnType method of an expression node (nor anything it calls in the package) stores into a node, a map or a package variable - the checker rewrites names into alias references after types were first asked for, so a remembered type goes stale and an ill-typed statement is accepted (or a well-typed one rejected)", ruleRTPure)
+}
+
+func ruleRTPure(p *Prog, r *Result) {
+	n := 0
+	for _, fn := range p.Funcs {
+		if fn.Name() != "ReturnType" || fn.Signature.Recv() == nil || len(fn.Blocks) == 0 {
+			continue
+		}
+		n++
+		bad := ""
+		for _, f := range p.staticClosure(fn, 3, nil) {
+			allInstrs(f, func(in ssa.Instruction) {
+				switch x := in.(type) {
+				case *ssa.Store:
+					// stores into memory allocated by this activation (locals, fresh literals) are fine
+					root := x.Addr
+					for d := 0; d < 6; d++ {
+						switch a := root.(type) {
+						case *ssa.FieldAddr:
+							root = a.X
+							continue
+						case *ssa.IndexAddr:
+							root = a.X
+							continue
+						}
+						break
+					}
+					if _, fresh := root.(*ssa.Alloc); fresh {
+						return
+					}
+					bad = fmt.Sprintf("%s stores to %s at %s", p.FName(f), x.Addr.String(), p.InstrPos(x))
+				case *ssa.MapUpdate:
+					bad = fmt.Sprintf("%s updates a map at %s", p.FName(f), p.InstrPos(x))
+				}
+			})
+		}
+		r.add(bad == "", p.FName(fn), p.Pos(fn.Pos()), firstNonEmpty(bad, "computes the static type from the node's children without storing anything"))
+	}
+	r.floor("ReturnType methods", n, 8)
+}
+
+// ---------------- VECFRESH ----------------
+
+func init() {
+	register("VECFRESH", "a column handed out by vector evaluation belongs to the caller: the vectorised operators write their results into the column of their left operand, so every []any returned by an ExecuteBatch method or a registered vector body is traced back (through re-slicing, append, phis, package helpers and their parameters) to memory made in this call (make, append to nil), to a column received from another ExecuteBatch / vector body, or to nil - never to a slice loaded from a field of a node or of the context or from a map - and a column that is returned is not also stored into a field or a map", ruleVecFresh)
+}
+
+func ruleVecFresh(p *Prog, r *Result) {
+	isCol := func(t types.Type) bool {
+		sl, ok := t.Underlying().(*types.Slice)
+		if !ok {
+			return false
+		}
+		_, isI := sl.Elem().Underlying().(*types.Interface)
+		return isI
+	}
+	var entries []*ssa.Function
+	seenE := map[*ssa.Function]bool{}
+	add := func(f *ssa.Function) {
+		if f != nil && !seenE[f] && len(f.Blocks) > 0 {
+			seenE[f] = true
+			entries = append(entries, f)
+		}
+	}
+	for _, t := range p.exprTypes() {
+		add(p.Method(t, "ExecuteBatch"))
+	}
+	if rows, err := p.registry("funcMap"); err == nil {
+		for _, row := range rows {
+			add(row.BodyVec)
+		}
+	}
+	// roots of a column value: "" when every root is fresh/owned, otherwise a description of the first foreign root
+	type ctxT struct {
+		fn   *ssa.Function
+		args map[*ssa.Parameter]ssa.Value
+		up   *ctxT
+	}
+	var roots func(v ssa.Value, c *ctxT, depth int, seen map[ssa.Value]bool, fresh map[ssa.Value]bool) string
+	roots = func(v ssa.Value, c *ctxT, depth int, seen map[ssa.Value]bool, fresh map[ssa.Value]bool) string {
+		if v == nil || seen[v] {
+			return ""
+		}
+		seen[v] = true
+		if depth > 10 {
+			return "provenance too deep at " + p.Pos(v.Pos())
+		}
+		switch x := v.(type) {
+		case *ssa.Const:
+			return ""
+		case *ssa.MakeSlice:
+			fresh[x] = true
+			return ""
+		case *ssa.Alloc:
+			fresh[x] = true
+			return ""
+		case *ssa.Slice:
+			return roots(x.X, c, depth, seen, fresh)
+		case *ssa.ChangeType:
+			return roots(x.X, c, depth, seen, fresh)
+		case *ssa.Phi:
+			for _, e := range x.Edges {
+				if m := roots(e, c, depth, seen, fresh); m != "" {
+					return m
+				}
+			}
+			return ""
+		case *ssa.Extract:
+			if x.Index == 0 {
+				return roots(x.Tuple, c, depth, seen, fresh)
+			}
+			return ""
+		case *ssa.Parameter:
+			if c != nil && c.args != nil {
+				if a, ok := c.args[x]; ok {
+					return roots(a, c.up, depth+1, map[ssa.Value]bool{}, fresh)
+				}
+			}
+			return "" // a column parameter of an entry point: owned by the caller
+		case *ssa.Call:
+			if b, ok := x.Call.Value.(*ssa.Builtin); ok {
+				if b.Name() == "append" {
+					return roots(x.Call.Args[0], c, depth, seen, fresh)
+				}
+				return ""
+			}
+			if x.Call.IsInvoke() {
+				if x.Call.Method.Name() == "ExecuteBatch" {
+					return ""
+				}
+				return "column produced by dynamic call " + x.Call.Method.Name() + " at " + p.InstrPos(x)
+			}
+			g := x.Call.StaticCallee()
+			if g == nil {
+				// a call through a function value: the registered vector bodies
+				if _, f, _, ok := loadedField(x.Call.Value); ok && f == "BodyVec" {
+					return ""
+				}
+				return "column produced by a call through a function value at " + p.InstrPos(x)
+			}
+			if g.Name() == "ExecuteBatch" {
+				return ""
+			}
+			if !p.InPkg(g) || len(g.Blocks) == 0 {
+				if strings.HasPrefix(p.qualName(g), "slices.") {
+					if len(x.Call.Args) > 0 {
+						return roots(x.Call.Args[0], c, depth, seen, fresh)
+					}
+				}
+				return "column produced by " + p.qualName(g) + " at " + p.InstrPos(x)
+			}
+			nc := &ctxT{fn: g, args: map[*ssa.Parameter]ssa.Value{}, up: c}
+			for i, pa := range g.Params {
+				if i < len(x.Call.Args) {
+					nc.args[pa] = x.Call.Args[i]
+				}
+			}
+			for _, b := range g.Blocks {
+				ret := retOf(b)
+				if ret == nil || len(ret.Results) == 0 || !isCol(retVal(ret, 0).Type()) {
+					continue
+				}
+				if m := roots(retVal(ret, 0), nc, depth+1, map[ssa.Value]bool{}, fresh); m != "" {
+					return m
+				}
+			}
+			return ""
+		case *ssa.UnOp:
+			if x.Op == token.MUL {
+				if o, f, _, ok := fieldOfAddr(x.X); ok && o != nil {
+					return fmt.Sprintf("the column is the slice held in field %s.%s (read at %s)", o.Obj().Name(), f, p.InstrPos(x))
+				}
+				if _, ok := x.X.(*ssa.Global); ok {
+					return "the column is held in a package variable"
+				}
+				if al, ok := x.X.(*ssa.Alloc); ok {
+					for _, sv := range storedInto(al) {
+						if m := roots(sv, c, depth+1, seen, fresh); m != "" {
+							return m
+						}
+					}
+					return ""
+				}
+				if ia, ok := x.X.(*ssa.IndexAddr); ok {
+					// an element of a slice of columns: where that slice's elements come from
+					return roots(ia.X, c, depth+1, seen, fresh)
+				}
+			}
+			return "column computed by " + x.String() + " at " + p.InstrPos(x)
+		case *ssa.Lookup:
+			return "the column is read from a map at " + p.InstrPos(x)
+		case *ssa.TypeAssert:
+			return roots(x.X, c, depth, seen, fresh)
+		case *ssa.MakeInterface:
+			return roots(x.X, c, depth, seen, fresh)
+		}
+		return "column of unknown origin (" + v.String() + ") at " + p.Pos(v.Pos())
+	}
+	n := 0
+	for _, fn := range entries {
+		bad := ""
+		fresh := map[ssa.Value]bool{}
+		nret := 0
+		for _, b := range fn.Blocks {
+			ret := retOf(b)
+			if ret == nil || len(ret.Results) == 0 || !isCol(retVal(ret, 0).Type()) {
+				continue
+			}
+			nret++
+			if m := roots(retVal(ret, 0), &ctxT{fn: fn}, 0, map[ssa.Value]bool{}, fresh); m != "" {
+				bad = m
+			}
+		}
+		if nret == 0 {
+			continue
+		}
+		n++
+		// a returned column made here is not kept anywhere else
+		if bad == "" {
+			allInstrs(fn, func(in ssa.Instruction) {
+				var val ssa.Value
+				switch x := in.(type) {
+				case *ssa.Store:
+					if _, _, _, ok := fieldOfAddr(x.Addr); ok {
+						val = x.Val
+					} else if _, ok := x.Addr.(*ssa.Global); ok {
+						val = x.Val
+					}
+				case *ssa.MapUpdate:
+					val = x.Value
+				}
+				if val == nil || !isCol(val.Type()) {
+					return
+				}
+				f2 := map[ssa.Value]bool{}
+				roots(val, &ctxT{fn: fn}, 0, map[ssa.Value]bool{}, f2)
+				for k := range f2 {
+					if fresh[k] {
+						bad = "a column that is returned is also kept at " + p.InstrPos(in)
+					}
+				}
+			})
+		}
+		r.add(bad == "", p.FName(fn), p.Pos(fn.Pos()), firstNonEmpty(bad, "every returned column is made in this call or received from an operand's evaluation"))
+	}
+	r.floor("vector entry points returning a column", n, 20)
+}
